@@ -113,6 +113,10 @@ func curGoid() int64 {
 
 // goState returns the scheduler state of a goroutine as printed by the runtime traceback
 // ("running", "runnable", "select", "chan receive", ...), "" if it cannot be found.
+// goState returns the runtime's wait state of a goroutine, but only if it is waiting INSIDE the lock
+// map (a frame of package gcsutil on its stack, and not inside the harness hook): a goroutine that
+// has not yet picked up its command, or is handing an event to the scheduler, is reported as
+// "running" however long that takes on a loaded machine.
 func goState(goid int64) string {
 	n := runtime.Stack(stackBuf, true)
 	needle := []byte(fmt.Sprintf("goroutine %d [", goid))
@@ -128,7 +132,15 @@ func goState(goid int64) string {
 			if j < 0 {
 				return ""
 			}
-			return string(r[:j])
+			state := string(r[:j])
+			frames := r
+			if end := bytes.Index(r, []byte("\n\n")); end >= 0 {
+				frames = r[:end]
+			}
+			if !bytes.Contains(frames, []byte("storage/gcsutil.")) || bytes.Contains(frames, []byte("installHook")) {
+				return "running"
+			}
+			return state
 		}
 		s = s[i+1:]
 	}
